@@ -36,7 +36,7 @@ func runC14(c *Ctx) {
 	r.Rule("R14-tables", "the letter tables of the FEN reader and writer (pieces, colour, castling, files, ranks) are standard and mutually inverse; the readers accept nothing outside their alphabets", 12+12+2+16+8+8+16+8+3)
 	r.Rule("R14-wiring", "Decode returns (position, side from field 2, half-move clock from field 5, full-move number from field 6); Encode prints (board, side, castling, e.p., half-move clock, full-move number) in that order; Engine.Position/Engine.Reset/NewBoard pass the same-typed ints in the right order", 6)
 	r.Rule("R14-scan", "Encode visits the squares in the order A8..H1 with a separator between ranks only; Decode's cursor starts at A8, moves one square per piece letter and n squares per digit, and places each piece on the cursor square", 4)
-	r.Rule("R14-clocks", "the reported half-move clock resets exactly on pawn moves and captures; the full-move number grows by one exactly after Black's move", 9+18)
+	r.Rule("R14-clocks", "the reported half-move clock resets exactly on pawn moves and captures; the full-move number grows by one exactly after Black's move; taking a move back restores both", 9+18+18)
 
 	in := newInterp(c.P)
 	c.guard("R14-tables", func() { c14Tables(c, in) })
@@ -49,6 +49,9 @@ func runC14(c *Ctx) {
 		}
 		c05ClockRule(c, g, "R14-clocks")
 		c14Moves(c, g)
+		// ... and a take-back restores both counters (the engine reports the FEN after TakeBack too):
+		// PopMove is the exact inverse of PushMove (rule of C08, re-decided here)
+		r.WithAlias("R08-inverse", "R14-clocks", func() { c08Inverse(c, g) })
 	})
 }
 
